@@ -24,18 +24,22 @@ struct Run {
     std::map<std::string, uint64_t> faults;   // fault kind -> times it actually fired
     std::map<std::string, uint64_t> probes;   // reach probes
     void reset(uint64_t b = ~0ull) { ticks = 0; budget = b; logHash = 1469598103934665603ull; logCount = 0; budgetHit = false; traceText.clear(); faults.clear(); probes.clear(); }
-    inline void tick() { if (++ticks > budget) { budgetHit = true; throw SimAbort{ "step budget" }; } }
+    // threadsim: worker threads must not touch this shared record (it would be a harness-side data race); they set quiet
+    static bool& quiet() { static thread_local bool q = false; return q; }
+    inline void tick() { if (quiet()) return; if (++ticks > budget) { budgetHit = true; throw SimAbort{ "step budget" }; } }
     void ev(const char* kind, uint64_t a = 0, uint64_t b = 0) {
+        if (quiet()) return;
         logHash = fnv1a(kind, __builtin_strlen(kind), logHash);
         uint64_t ab[2] = { a, b }; logHash = fnv1a(ab, sizeof ab, logHash); logCount++;
         if (trace) { char buf[160]; snprintf(buf, sizeof buf, "%s %llu %llu\n", kind, (unsigned long long)a, (unsigned long long)b); traceText += buf; }
     }
     void evs(const char* kind, const std::string& s) {
+        if (quiet()) return;
         logHash = fnv1a(kind, __builtin_strlen(kind), logHash); logHash = fnv1a(s, logHash); logCount++;
         if (trace) { traceText += kind; traceText += ' '; traceText += s; traceText += '\n'; }
     }
-    void fault(const char* k) { faults[k]++; }
-    void probe(const char* k) { probes[k]++; }
+    void fault(const char* k) { if (quiet()) return; faults[k]++; }
+    void probe(const char* k) { if (quiet()) return; probes[k]++; }
 };
 extern Run g_run;
 
@@ -61,7 +65,15 @@ struct Engine {
     virtual Outcome execute(const Json& plan) = 0;                   // must reset g_run itself
     virtual std::vector<Json> shrinkCandidates(const Json& plan) { (void)plan; return {}; }
     virtual Json sampleView(const Json& plan) { return plan; }       // abbreviated plan for evidence
+    // false for engines whose detector de-duplicates reports per process (TSan): an in-process re-execution then
+    // compares the event-log hash only, and violations are gated / shrunk in fresh child processes
+    virtual bool inProcessReexecutionReproducesClass() const { return true; }
+    virtual bool runEachInForkedChild() const { return false; }
 };
+
+// true iff (class, detail) matches an entry of known_findings.json for the property being run (engines that must
+// go on after a known finding and stop at an unknown one use this)
+bool knownFindingMatches(const std::string& cls, const std::string& detail, std::string* idOut = nullptr);
 
 int driverMain(int argc, char** argv, std::function<Engine*(const std::string& prop)> factory);
 
